@@ -295,6 +295,9 @@ type Check struct {
 	Assumptions []string
 	// Serial makes the driver use one worker (the check parallelises internally).
 	Serial bool
+	// Race runs the worker from the -race build (bin/vcheck.race) and turns every race-detector
+	// report into a violation.
+	Race bool
 	// Required lists set keys whose merged size must reach the given minimum, else inconclusive.
 	Required map[string]int
 }
